@@ -87,6 +87,9 @@ class RejSpec(c09.ListSpec):
         if self.kind in ('segment', 'field'):
             r.append(('rej_dt_change', n1))
             r.append(('rej_dt_change', n0))
+        if self.kind in ('segment', 'message'):
+            r.append(('rej_trav_value',))
+            r.append(('rej_trav_assign',))
         if self.level == STRICT:
             r.append(('rej_overflow', n0))
             r.append(('rej_value_overflow',))
@@ -167,6 +170,17 @@ class RejSpec(c09.ListSpec):
             setattr(r, 'pid_8', 'x' * 30)
         elif k == 'rej_value_invalid':
             r.value = 'PID|abc||ok'
+        elif k == 'rej_trav_value':
+            # value refused at the end of a traversal over elements that do not exist yet
+            if self.kind == 'segment':
+                r.pid_7.value = 'bad^x' if self.level == STRICT else common.libs()[V].BASE_DATATYPES['ST']('x')
+            else:
+                r.pd1.pd1_13.value = 'bad' if self.level == STRICT else common.libs()[V].BASE_DATATYPES['ST']('x')
+        elif k == 'rej_trav_assign':
+            if self.kind == 'segment':
+                r.pid_7.ts_1 = 'bad' if self.level == STRICT else Field('PID_3', version=V, validation_level=lvl)
+            else:
+                r.pd1.pd1_13 = 'bad' if self.level == STRICT else Segment('PID', version=V, validation_level=lvl)
         elif k == 'rej_value_overflow':
             # a value whose children are refused midway (two children where one is allowed, STRICT) or an element of
             # another segment in the middle
